@@ -335,6 +335,11 @@ def gen_case(rng, idx):
         for _ in range(rng.randint(2, 6)):
             ops.append(["draw", rng.randint(0, 1)])
         return {"kind": "shared", "streams": [stream_spec(rng)], "ops": ops}
+    if r < 0.74:       # rewind the stream, re-assign the same stream object, compare with a fresh twin
+        s = stream_spec(rng)
+        return {"kind": "sameobj", "streams": [s, dict(s)],
+                "ops": same_object_ops(cname, gen_params(rng, cname, ext), rng.randint(0, 5),
+                                       rng.choice(["reset", "set_seed"]), rng.randint(1, 3))}
     if r < 0.76:       # a refused re-pointing next to an undisturbed twin
         ps = gen_params(rng, cname, ext)
         s = stream_spec(rng)
@@ -396,6 +401,30 @@ def refused_repoint_cases(rng):
             for _ in range(2):
                 ops += [["draw", 0], ["draw", 1]]
             cases.append({"kind": "refused", "streams": [s, dict(s)], "ops": ops})
+    return cases
+
+
+def same_object_ops(cname, ps, k, how, m=3):
+    ops = [["new", 0, cname, True, 0, ps], ["new", 1, cname, True, 1, ps]]
+    ops += [["draw", 0]] * k
+    ops.append(["reset", 0, how])                 # rewind the stream (replication loop)
+    ops.append(["set", 0, True, 0])               # dist.stream = <the stream object already in use>
+    ops += [["draw", 0]] * m
+    ops += [["draw", 1]] * m                      # the twin: a fresh instance on an equally seeded stream
+    return ops
+
+
+def same_object_cases(rng):
+    """Every class: k draws (odd and even), the stream is reset / re-seeded, `dist.stream = <the same stream object>`,
+    then draws again.  Re-pointing - also to the object already in use - starts afresh on the stream as it is now: the
+    draws must equal those of an identical twin on an equally seeded, untouched stream."""
+    cases = []
+    for ci, cname in enumerate(CLASSES):
+        for k in (1, 2, 3):
+            ps = gen_params(rng, cname, False)
+            s = stream_spec(rng, script=[], kind="mt" if (ci + k) % 2 else "script")
+            cases.append({"kind": "sameobj", "streams": [s, dict(s)],
+                          "ops": same_object_ops(cname, ps, k, "reset" if k % 2 else "set_seed")})
     return cases
 
 
@@ -680,6 +709,8 @@ def oracle(case, res):
                     "DistGeometric": 1, "DistNormalTrunc": 1, "DistTriangular": 1, "DistUniform": 1,
                     "DistWeibull": 1, "DistPoisson": 1}
     for k, (op, out) in enumerate(zip(ops, outs)):
+        if op[0] == "reset":
+            continue            # the harness rewinds a stream; what it delivers afterwards is appended to `delivered`
         if op[0] == "new":
             _, i, cname, sok, sid, params = op
             vals = [pval(p) for p in params]
@@ -806,6 +837,18 @@ def pair_oracles(case, res, solo_res):
         if a != b:
             k = next(j for j, (x, y) in enumerate(zip(a, b)) if x != y)
             findings.append((f"twin-streams-differ:{ops[0][2]}", f"equal parameters on equally seeded streams: draw #{k} gives {a[k][:3]} vs {b[k][:3]}", k))
+    if case["kind"] == "sameobj":
+        ks = next(j for j, op in enumerate(ops) if op[0] == "set")
+        a = [o for op, o in list(zip(ops, outs))[ks + 1:] if op[0] == "draw" and op[1] == 0]
+        b = [o for op, o in zip(ops, outs) if op[0] == "draw" and op[1] == 1]
+        n = min(len(a), len(b))
+        if a[:n] != b[:n]:
+            k = next(j for j, (x, y) in enumerate(zip(a, b)) if x != y)
+            nb = sum(1 for op in ops[:ks] if op[0] == "draw")
+            findings.append((f"stale-state-after-reassigning-same-stream:{ops[0][2]}",
+                             f"{ops[0][2]}{tuple(pval(p) for p in ops[0][5])}: after {nb} draws the stream was rewound "
+                             f"({ops[ks - 1][2]}) and assigned again (dist.stream = the same object); draw #{k} afterwards gives "
+                             f"{a[k][1:4]} (value, uniforms consumed) but a fresh twin on an equally seeded stream gives {b[k][1:4]}", ks))
     if case["kind"] == "refused":
         a = [o for op, o in zip(ops, outs) if op[0] == "draw" and op[1] == 0]
         b = [o for op, o in zip(ops, outs) if op[0] == "draw" and op[1] == 1]
@@ -845,6 +888,8 @@ def coq_case(case, res, powtab):
     ops_c, exp_c = [], []
     accepted = {}
     for op, out in zip(case["ops"], res["outs"]):
+        if op[0] == "reset":
+            continue        # not an operation of the model: the recorded stream output simply goes on
         if op[0] == "new":
             _, i, cname, sok, sid, params = op
             ops_c.append(f"ONew {i} {COQ_CLS[cname]} {C.cbool(sok)} {sid} {C.clist(cparam(p) for p in params)}")
@@ -1052,7 +1097,7 @@ def shrink(case, res, k, sig):
     else:
         i = op[1]
         new = next(o for o in case["ops"] if o[0] == "new" and o[1] == i)
-        keep = [o for o in case["ops"][:k + 1] if o[0] != "new" and o[1] == i]
+        keep = [o for o in case["ops"][:k + 1] if o[0] not in ("new", "reset") and o[1] == i]
         sids = sorted({new[4]} | {o[3] for o in keep if o[0] == "set" and o[2]})
         remap = {s: j for j, s in enumerate(sids)}
         streams = [{"script": res["delivered"][s], "seed": 1, "kind": "script"} for s in sids]
@@ -1128,6 +1173,7 @@ def main(tier: str) -> int:
     cases += gen_ctor_cases(rng)
     cases += targeted_cases(rng)
     cases += refused_repoint_cases(rng)
+    cases += same_object_cases(rng)
     cases += nonfinite_parameter_cases(rng)
     for i in range(n_random):
         cases.append(gen_case(rng, i))
@@ -1161,7 +1207,7 @@ def main(tier: str) -> int:
             if out and out[0] == "raise":
                 hist_exc[out[1]] = hist_exc.get(out[1], 0) + 1
         n_draws += info["draws"]
-        if info["special"] or info["retry"] or c["kind"] in ("twin", "isolation", "repoint", "refused", "shared", "quantity") \
+        if info["special"] or info["retry"] or c["kind"] in ("twin", "isolation", "repoint", "refused", "sameobj", "shared", "quantity") \
                 or (c["kind"] == "ctor"):
             nontrivial.add(json.dumps(public(c), sort_keys=True))
     run.cov["evaluations"] = len(cases)
